@@ -164,9 +164,32 @@ func IsInjected(err error, ctor, nth int) bool {
 }
 
 // CloseErr is what a faulted Close returns.
-type CloseErr struct{ ID int64 }
+type CloseErr struct {
+	ID int64
+	// Wraps: what the failing Close method's own error chain contains besides itself. A
+	// disposable that kept its Scope and uses it during Close gets godi's disposed error and
+	// wraps it; a disposal error is a failure of THIS instance whatever it wraps.
+	Wraps error
+}
 
-func (e *CloseErr) Error() string { return fmt.Sprintf("injected close error inst %d", e.ID) }
+func (e *CloseErr) Error() string {
+	if e.Wraps != nil {
+		return fmt.Sprintf("injected close error inst %d: %v", e.ID, e.Wraps)
+	}
+	return fmt.Sprintf("injected close error inst %d", e.ID)
+}
+func (e *CloseErr) Unwrap() error { return e.Wraps }
+
+// closeErrFor varies the shape with the instance id.
+func closeErrFor(id int64) error {
+	switch id % 4 {
+	case 2:
+		return &CloseErr{ID: id, Wraps: godi.ErrScopeDisposed}
+	case 3:
+		return &CloseErr{ID: id, Wraps: godi.ErrProviderDisposed}
+	}
+	return &CloseErr{ID: id}
+}
 
 type panicStruct struct {
 	A int
@@ -400,7 +423,7 @@ func OnClose(i *Inst) error {
 		(*h)(HookPoint{Where: "close", Ctor: i.Ctor, Nth: i.Nth, G: g, Op: oi.Op, Inst: i.ID})
 	}
 	if r.closeF[CloseFault{Ctor: i.Ctor, Nth: i.Nth, Out: i.Out}] {
-		return &CloseErr{ID: i.ID}
+		return closeErrFor(i.ID)
 	}
 	return nil
 }
